@@ -562,6 +562,8 @@ def gen_column(rng, kind, n, drill):
     raise ValueError(kind)
 
 
+RELATED_NAMES = [("fiscal_year", "year"), ("ab", "b"), ("k", "kk"), ("x.k", "k"), ("A_b", "b"), ("my col", "col"), ("k", "K"), ("part", "part2"),
+                 ("a", "a.b"), ("ü", "xü"), ("n", "in"), ("dir0", "adir0"), ("y", "y y")]
 INDEX_KINDS = ["dup", "concat", "nonmono", "str", "multi", "same", "float", "time"]
 
 
@@ -647,6 +649,15 @@ def gen_frame_case(rng, confirm, i):
     # a partition column that is itself called dirN collided, in the drill layout, with the positional
     # name of another level (fixed; which == 2 is its regression stream)
     names = rng.sample(["k", "part", "A_b", "dir0", "year", "x1", "my col", "ü", "a.b", "K"], n_on)
+    # partition column NAMES related to each other: one the tail / head / middle of another, differing in case only, one holding the other
+    # after a separator - in both orders (a reader that looks a level up by searching the path text for "<name>=" finds the wrong level)
+    if n_on >= 2 and which == -1 and (i % 3 == 1 or rng.random() < 0.2):
+        pair = list(rng.choice(RELATED_NAMES))
+        if rng.random() < 0.5:
+            pair.reverse()
+        names = pair + [nm for nm in names if nm not in pair][:n_on - 2]
+        if n_on == 3 and rng.random() < 0.5:
+            names = [names[2], names[0], names[1]]
     if which == 2:
         names = [rng.choice(["k", "year"]), "dir0"]
     cols = {}
@@ -1020,6 +1031,10 @@ def gen_handle_case(rng, i):
     kinds = [rng.choice(["int", "int", "str", "str", "bool", "float", "time", "cat", "catint"]) for _ in range(n_on)]
     # a drill dataset knows its levels only as dir0, dir1, ...: frames appended to it must call them so
     names = rng.sample(["k", "part", "year", "K", "a.b"], n_on) if scheme == "hive" else ["dir%d" % j for j in range(n_on)]
+    if scheme == "hive" and n_on == 2 and rng.random() < 0.4:       # related names (see RELATED_NAMES), both orders
+        names = list(rng.choice(RELATED_NAMES))
+        if rng.random() < 0.5:
+            names.reverse()
     pools = []
     for kd in kinds:
         pool = list(H_POOLS[kd])
@@ -1027,9 +1042,12 @@ def gen_handle_case(rng, i):
             rng.shuffle(pool)
         pools.append(pool)
     n_batches = rng.choice([2, 2, 3, 4])
+    many = i % 4 == 2 or rng.random() < 0.1       # size boundary: >= 11 part files before the first append
     frames, idx_specs = [], []
     for b in range(n_batches):
         n = rng.choice([2, 3, 5, 8, 12]) if b else rng.choice([3, 5, 8])
+        if many and b == 0:
+            n = rng.choice([24, 26, 31])        # with row groups of 2 rows: part ids 0..11+ (two-digit ids: 9 < 10 only as numbers)
         cols = {}
         for nm, kd, pool in zip(names, kinds, pools):
             # later batches bring partition values not seen before (and repeat old ones)
@@ -1063,7 +1081,7 @@ def gen_handle_case(rng, i):
         prog.append(["read"])
         prog.append([rng.choice(obs)])
     return {"scheme": scheme, "on": names, "kinds": kinds, "frames": frames, "indexes": idx_specs, "prog": prog,
-            "rgo": rng.choice([None, 2, 3]),
+            "rgo": 2 if many else rng.choice([None, 2, 3]),
             # the directory loses its summary files before the handle is opened: the handle comes from the file listing (footers merged),
             # and the first edit through it writes the summary
             "nometa": rng.random() < 0.25,
